@@ -56,9 +56,10 @@ def run(ctx):
         ctx.ob('R07.1', 'max_size written under the slots lock', g is not None, ctx.where(z, s.line), '', construct='resize:max-write-lock')
         # reads of MAX that happen before the write = the old limit
         for blk in z.blocks:
-            for st in blk.stmts:
+            for si_, st in enumerate(blk.stmts):
                 if st.kind == 'assign' and st.rv.kind == 'use' and st.rv.ops[0].kind == 'copy' and st.rv.ops[0].place.has_field(r.SLOTS, r.MAX):
-                    if an.dominates(blk.idx, bb) and (blk.idx != bb):
+                    # (in the block of the write: the statements before it - `let old = mem::replace(&mut max_size, new)` written out)
+                    if (an.dominates(blk.idx, bb) and blk.idx != bb) or (blk.idx == bb and si_ < i):
                         old_reads.append((blk.idx, st.place.local))
 
     def classify_operand(op):
@@ -87,7 +88,7 @@ def run(ctx):
                     p = d[3].rv.ops[0].place
                     if p.has_field(r.SLOTS, r.MAX):
                         kinds.discard('field')
-                        kinds.add('old' if (an.dominates(d[1], wbb) and d[1] != wbb) else 'new')
+                        kinds.add('old' if ((an.dominates(d[1], wbb) and d[1] != wbb) or (d[1] == wbb and d[2] is not None and d[2] < ws[0][1])) else 'new')
                         break
                     l = p.local if not p.proj else None
                 else:
